@@ -390,6 +390,7 @@ class PythonTubeSolver(TubeSolver):
                 mdiv += 1
                 if mdiv >= self.max_divide:
                     break
+                continue
 
             state_last = state_next
             t_last = t_next
